@@ -279,6 +279,9 @@ func listL1(mode int) {
 	s1, s2 := sp.build(), sp.build()
 	vf.Assert(listInv(s1), "A.2 holds on the constructed pre-state")
 	a.apply(s1)
+	if mode&(modeC02|modeC04) != 0 {
+		checkInsertPlacement(s1, a)
+	}
 	if mode&modeC01 != 0 {
 		vf.Assert(listInv(s1), "L3 invariant after a")
 	}
@@ -287,6 +290,9 @@ func listL1(mode int) {
 	}
 	b.apply(s1)
 	b.apply(s2)
+	if mode&(modeC02|modeC04) != 0 {
+		checkInsertPlacement(s2, b)
+	}
 	if mode&modeC01 != 0 {
 		vf.Assert(listInv(s2), "L3 invariant after b")
 	}
@@ -302,9 +308,48 @@ func listL1(mode int) {
 	}
 	if mode&modeC04 != 0 {
 		vf.Assert(orderStable(sp, s1) && orderStable(sp, s2), "C04 order stable after both")
+		vf.Assert(sameOrder(s1, s2), "C04 any two elements appear in the same relative order on both replicas")
 	}
 	checkListOutcome(sp, s1, a, b, mode)
 	checkListOutcome(sp, s2, a, b, mode)
+}
+
+// sameOrder: both chains list the same identifiers in the same order.
+func sameOrder(a, b *listSnapshot) bool {
+	ca, cb := chainOf(a), chainOf(b)
+	if len(ca) != len(cb) {
+		return false
+	}
+	for i := range ca {
+		if !tsEq(ca[i].getOrderTime(), cb[i].getOrderTime()) {
+			return false
+		}
+	}
+	return true
+}
+
+// checkInsertPlacement is the placement rule of the statement for one insert
+// applied to a state: the batch sits behind its anchor, separated from it only
+// by elements that were inserted (order time) later than the batch, and is
+// followed by an element inserted earlier (or by nothing).  Value times
+// (updates, deletes) of the neighbours must not matter.
+func checkInsertPlacement(ls *listSnapshot, op *listOp) {
+	if op.kind != 0 {
+		return
+	}
+	c := chainOf(ls)
+	first := &model.Timestamp{Era: 0, Lamport: op.ts.Lamport, CUID: op.ts.CUID, Delimiter: 0}
+	pf := posOf(ls, first)
+	vf.Assert(pf >= 0, "C04 inserted element present")
+	pa := posOf(ls, op.anchor) // -1 = head
+	vf.Assert(pa < pf, "C04 an element is placed behind its anchor")
+	for i := pa + 1; i < pf; i++ {
+		vf.Assert(newer(c[i].getOrderTime(), op.ts), "C02 only elements inserted later may stand between an element and its anchor")
+	}
+	last := pf + len(op.vals) - 1
+	if last+1 < len(c) {
+		vf.Assert(!newer(c[last+1].getOrderTime(), op.ts), "C02 an element inserted later at the same place comes first")
+	}
 }
 
 func jsonEqList(a, b *listSnapshot) bool {
